@@ -286,4 +286,58 @@ def switchRingUp (nIn nOut : Nat) : List Acc :=
   (List.range (nIn >>> 2)).flatMap (fun i =>
     rd 1 (4 * i) 4 :: (List.range 4).map (fun l => wt 0 ((4 * i + l) * (nOut / nIn)) 1))
 
+/-! ### NTT120 vmp (poulpy-cpu-ref/src/reference/ntt120/vmp.rs, AVX kernels in poulpy-cpu-avx/src/ntt120/mat_vec_avx.rs)
+
+Same block-interleaved scheme as FFT64 in other units: a limb of a `VecZnxDft` is `4n` u64, a block is one q120x2b
+element = 8 u64 at `8·blk` (`n/2` blocks); the prepared matrix is addressed in u32 (q120c: 16 u32 per column and row,
+32 per stored pair), block stride `16·nrows·ncols` u32.  Buffers: 0 = `res` (u64), 1 = `a` (u64), 2 = `pmat` (u32),
+3 = `tmp` (u64: `mat2cols_output = tmp[..16]`, `extracted_blk = tmp[16..]`, read by the kernels as `2×` as many u32) -/
+
+def nttPmatOff (nrows ncols row col : Nat) : Nat :=
+  if col = ncols - 1 ∧ ncols % 2 = 1 then col * nrows * 16 + row * 16
+  else (col / 2) * (nrows * 32) + row * 32 + (col % 2) * 16
+
+/-- `ntt120_vmp_prepare`: per (row, col) the `n/2` blocks of 16 u32 scattered into the matrix (checked slices) -/
+def nttVmpPrepare (n nrows ncols : Nat) : List Acc :=
+  (List.range nrows).flatMap (fun row => (List.range ncols).flatMap (fun col =>
+    rd 1 (n * (row * ncols + col)) n ::
+    (List.range (n / 2)).map (fun blk => wt 0 (nttPmatOff nrows ncols row col + blk * (nrows * ncols * 16)) 16)))
+
+/-- `extract_1blk_from_contiguous_q120b`: row `r` of `a` contributes `a[4n·r + 8·blk ..+8)` -/
+def nttExtract (n rowMax blk : Nat) : List Acc :=
+  (List.range rowMax).flatMap (fun r => [rd 1 (4 * n * r + 8 * blk) 8, wt 3 (16 + 8 * r) 8])
+
+/-- `vec_mat2cols_product_x2_bbc`: `ell` rows, 8 u64 (16 u32) of the extracted block and 32 u32 of the matrix per row, 16 u64 out -/
+def nttMat2cols (ell vOff : Nat) : List Acc :=
+  (List.range ell).flatMap (fun i => [rd 3 (16 + 8 * i) 8, rd 2 (vOff + 32 * i) 32]) ++ [wt 3 0 16]
+/-- `vec_mat1col_product_x2_bbc`: 16 u32 of the matrix per row, 8 u64 out -/
+def nttMat1col (ell vOff : Nat) : List Acc :=
+  (List.range ell).flatMap (fun i => [rd 3 (16 + 8 * i) 8, rd 2 (vOff + 16 * i) 16]) ++ [wt 3 0 8]
+
+/-- `save_blk_overwrite(n, blk, &mut res[base..], &out[o..o+8])` -/
+def nttSave (blk base o : Nat) : List Acc := [rd 3 o 8, wt 0 (base + 8 * blk) 8]
+
+/-- `vmp_apply_dft_to_dft_core::<true>` of the NTT120 back ends -/
+def nttVmpApply (n resSize aSize nrows ncols lo : Nat) : List Acc :=
+  let rowMax := min nrows aSize
+  let colMax := min ncols (resSize + lo)
+  if lo ≥ colMax then [wt 0 0 (4 * n * resSize)]
+  else
+    ((List.range (n / 2)).flatMap (fun blk =>
+      let mb := blk * (nrows * ncols * 16)
+      nttExtract n rowMax blk ++
+      (if lo % 2 = 0 then
+        (pairCols lo colMax).flatMap (fun c =>
+          nttMat2cols rowMax (mb + c * (nrows * 16)) ++ nttSave blk ((c - lo) * (4 * n)) 0 ++ nttSave blk ((c - lo + 1) * (4 * n)) 8)
+       else
+        nttMat2cols rowMax (mb + (lo - 1) * (nrows * 16)) ++ nttSave blk 0 8 ++
+        (pairCols (lo + 1) colMax).flatMap (fun c =>
+          nttMat2cols rowMax (mb + c * (nrows * 16)) ++ nttSave blk ((c - lo) * (4 * n)) 0 ++ nttSave blk ((c - lo + 1) * (4 * n)) 8)) ++
+      (if colMax % 2 = 1 ∧ colMax - 1 ≥ lo then
+        (if ncols = colMax then nttMat1col rowMax (mb + (colMax - 1) * (nrows * 16))
+         else nttMat2cols rowMax (mb + (colMax - 1) * (nrows * 16))) ++
+        nttSave blk ((colMax - 1 - lo) * (4 * n)) 0
+       else []))) ++
+    (List.range' (colMax - lo) (resSize - (colMax - lo))).map (fun col => wt 0 (col * (4 * n)) (4 * n))
+
 end Kern
